@@ -55,7 +55,8 @@ def _cases(draw):
     if draw(st.booleans()):
         events.append({"kind": "impulse", "tau": draw(st.integers(1, max(1, total * dt - 1)))})
     return {"start": iso(t0), "dt": dt, "out": out, "ops": ops, "events": events, "truth_only": draw(st.sampled_from([False, False, True])),
-            "filter_steps": draw(st.booleans()), "detect": draw(st.sampled_from([None, "standard_nis", "sliding_nis"]))}
+            "filter_steps": draw(st.booleans()), "detect": draw(st.sampled_from([None, "standard_nis", "sliding_nis"])),
+            "past_stop": draw(st.sampled_from([0, 0, 0, 1, 2]))}
 
 
 def _config(c, total_steps):
@@ -80,7 +81,10 @@ def _config(c, total_steps):
     seq = {"alpha": 0.5, "save_filter_steps": c["filter_steps"]}
     if c["detect"]:
         seq["maneuver_detection"] = {"name": c["detect"], "threshold": 0.05}
-    return kit.scenario_config(t0, t0 + timedelta(seconds=(total_steps + 2) * dt), dt, [kit.engine(1, sens, tgts)], output_dt=c["out"],
+    # the configured stop may lie before the end of what is actually run: the clock writes epoch rows up to the stop in advance,
+    # beyond it the output routine adds them itself
+    span_steps = max(1, total_steps + 2 - c.get("past_stop", 0) * 3)
+    return kit.scenario_config(t0, t0 + timedelta(seconds=span_steps * dt), dt, [kit.engine(1, sens, tgts)], output_dt=c["out"],
                                truth_only=c["truth_only"], events=evs, seq_filter=seq)
 
 
@@ -206,6 +210,8 @@ def histories(c, rec):
     if nontrivial:
         rec.nontrivial([dt, out, tuple((o["steps"], o["fault"]) for o in c["ops"]), tuple(e["kind"] for e in c["events"]), c["truth_only"], c["filter_steps"], c["detect"]])
     rec.label("out==dt" if out == dt else ("out multiple" if out % dt == 0 else "out non-multiple"))
+    if c.get("past_stop") and total + 2 - c["past_stop"] * 3 < total:
+        rec.label("run_continues_past_configured_stop")
     expected = {}
     with _FaultyBulk() as faulty:
         try:
